@@ -229,6 +229,7 @@ func negSystematic(g *Gen, o *Out) {
 
 func fragNeg(g *Gen, n int, o *Out) {
 	negSystematic(g, o)
+	bareLiteralTable(o)
 	for i := 0; i < n; i++ {
 		datum, _, paths := datumAndPaths(g, "bexpr")
 		var opts []OptSpec
@@ -1773,7 +1774,39 @@ func refEqualJSONNumber(num string, lit string) string {
 	return "E"
 }
 
+// bareLiteralTable: every shape of unquoted literal the grammar admits (it reads them through the Selector rule and
+// takes the literal's text from the printed selector), compared as the text that was written.
+func bareLiteralTable(o *Out) {
+	words := []string{"v1", "v1.2", "eth0.100", "a.0", "rack.7", "a.b.3.c", "x/y.z", "a_b.c_d", "A.B", "n.007", "r2.d2.0", "a.0.1", "k/8s.io", "x.y", "w"}
+	for _, w := range words {
+		d := map[string]interface{}{"s": w, "l": []string{"x", w}, "m": map[string]int{w: 1}, "t": "<" + w + ">", "n": []interface{}{w + "!", 1}}
+		for _, c := range []struct{ text, want string }{
+			{"s == " + w, "T"}, {"s != " + w, "F"}, {w + " in l", "T"}, {w + " not in l", "F"}, {w + " in m", "T"}, {"m contains " + w, "T"},
+			{"t contains " + w, "T"}, {"s matches " + w, "T"}, {"s not matches " + w, "F"}, {"s == \"" + w + "\"", "T"}, {"s == `" + w + "`", "T"},
+			{"t == " + w, "F"}, {"all l as e { e == x or e == " + w + " }", "T"},
+		} {
+			if got := norm(evalText(o, nil, c.text, d)); got != c.want {
+				for _, prop := range []string{"C01", "C04", "C02"} {
+					o.finding(Finding{Property: prop, Kind: "failing-input", What: fmt.Sprintf("the unquoted literal %s: %q gives %s, want %s", w, c.text, got, c.want), Request: lastReq(o)})
+				}
+			}
+		}
+		// a selector-shaped value written with index expressions: only compared with the model
+		parts := strings.Split(w, ".")
+		if len(parts) > 1 {
+			br := parts[0]
+			for _, p := range parts[1:] {
+				br += "[\"" + p + "\"]"
+			}
+			evalText(o, nil, "s == "+br, d)
+			evalText(o, nil, br+" in l", d)
+			evalText(o, nil, "s == "+parts[0]+"[\"b c\"]", map[string]interface{}{"s": parts[0] + ".b c"})
+		}
+	}
+}
+
 func fragScalarEq(g *Gen, n int, o *Out) {
+	bareLiteralTable(o)
 	// json.Number: integers are compared exactly (also above 2^53), everything else as float64
 	nums := []string{"0", "7", "-1", "9007199254740992", "9007199254740993", "-9007199254740993", "9223372036854775807", "-9223372036854775808",
 		"1234567890123456789", "9223372036854775808", "1.5", "1e3", "0.1", "1e400", "abc", "", "1.0", "100"}
